@@ -447,7 +447,8 @@ class Function:
             # a local that holds a freshly created object and is published through an out-parameter right away
             #   T *obj = calloc(..); *out = obj;     =>  obj is another name for *out
             for name, ds in defs.items():
-                if name in self._alias_map or name in bad or len(ds) != 1:
+                # NULL initialisations / resets do not count: the local is "NULL or the one fresh object"
+                if name in self._alias_map or name in bad or len([d for d in ds if not d[0].is_null_const()]) != 1:
                     continue
                 pubs = [n for n in self.nodes if n.k == "BinaryOperator" and n.j.get("op") == "=" and n.children[1].strip().k == "DeclRefExpr"
                         and n.children[1].strip().j.get("name") == name and n.children[1].strip().j.get("dk") == "local"]
